@@ -194,6 +194,10 @@ inductive Op where
   | convbt (h : Nat)
   | json (h : Nat)
   | md5 (h : Nat)
+  | enab (h : Nat)
+  | disab (h : Nat)
+  | sethf (h c : Nat)
+  | downmh (r g mx : Nat)
 
 def orElse {ε α} (x : Except ε α) (d : α) : α :=
   match x with
@@ -209,6 +213,8 @@ def addManyAbB (fix : Bool) (b : BT) (ps : List (Nat × Nat)) : BT :=
 def mergeB (fix : Bool) (b o : BT) : Except MH.Err BT := if fix then b.mergeFix o else b.merge o
 def downB (fix : Bool) (b : BT) (sc : Nat) : Except MH.Err BT :=
   if fix then b.downsampleScaledFix sc else b.downsampleScaled sc
+def downMaxB (fix : Bool) (b : BT) (mx : Nat) : Except MH.Err BT :=
+  if fix then b.downsampleMaxHashFix mx else b.downsampleMaxHash mx
 def ofVecB (fix : Bool) (v : MH) : BT := if fix then BT.ofVecFix v else BT.ofVec v
 def deserializeB (fix : Bool) (j : BT.Json) : BT := if fix then BT.deserializeFix j else BT.deserialize j
 
@@ -250,6 +256,18 @@ def step (fix : Bool) (t : Tab) : Op → Tab
     t.upd h (fun c => ⟨MH.deserialize c.v.serialize.2, deserializeB fix c.b.serialize.2,
       !fix && (c.b.num != 0 && !c.b.abunds.isSome)⟩)
   | .md5 h => t.upd h (fun c => ⟨c.v.md5sum.1, c.b.md5sum.1, c.stale⟩)
+  | .enab h => t.upd h (fun c => ⟨orElse c.v.enableAbundance c.v, orElse c.b.enableAbundance c.b, c.stale⟩)
+  | .disab h => t.upd h (fun c => ⟨c.v.disableAbundance, c.b.disableAbundance, c.stale⟩)
+  | .sethf h k =>
+    t.upd h (fun c => ⟨orElse (c.v.setHashFunction k) c.v, orElse (c.b.setHashFunction k) c.b, c.stale⟩)
+  | .downmh r g mx =>
+    match t g with
+    | some o =>
+      let t1 := t.set g ⟨o.v.clone.1, o.b.clone.1, o.stale⟩
+      match o.v.clone.2.downsampleMaxHash mx, downMaxB fix o.b.clone.2 mx with
+      | .ok v', .ok b' => t1.set r ⟨v', b', o.stale⟩
+      | _, _ => t1
+    | none => t
 
 theorem step_merge (fix : Bool) (t : Tab) (h g : Nat) :
     step fix t (.merge h g) =
@@ -273,6 +291,15 @@ theorem step_down (fix : Bool) (t : Tab) (r g sc : Nat) :
       match t g with
       | some o =>
         match o.v.clone.2.downsampleScaled sc, downB fix o.b.clone.2 sc with
+        | .ok v', .ok b' => (t.set g ⟨o.v.clone.1, o.b.clone.1, o.stale⟩).set r ⟨v', b', o.stale⟩
+        | _, _ => t.set g ⟨o.v.clone.1, o.b.clone.1, o.stale⟩
+      | none => t := rfl
+
+theorem step_downmh (fix : Bool) (t : Tab) (r g mx : Nat) :
+    step fix t (.downmh r g mx) =
+      match t g with
+      | some o =>
+        match o.v.clone.2.downsampleMaxHash mx, downMaxB fix o.b.clone.2 mx with
         | .ok v', .ok b' => (t.set g ⟨o.v.clone.1, o.b.clone.1, o.stale⟩).set r ⟨v', b', o.stale⟩
         | _, _ => t.set g ⟨o.v.clone.1, o.b.clone.1, o.stale⟩
       | none => t := rfl
@@ -637,6 +664,108 @@ theorem good_json {fix : Bool} {c : Cell} (g : Good fix c) :
   · simp only [if_true, Bool.not_true, Bool.false_and]
     exact ⟨heq, hcv, hcb, ⟨hj.2.1.inv, hj.2.1.keys⟩, hx, fun _ => cmOk_setLast _, fun _ => rfl⟩
 
+/-! ### the small mutators -/
+
+theorem cacheInv_congr {s t : MH} (h1 : t.md5 = s.md5) (h2 : t.mins = s.mins) (h3 : t.ksize = s.ksize)
+    (h : C11.CacheInv s) : C11.CacheInv t := by
+  unfold C11.CacheInv MH.digest at *
+  rw [h1, h2, h3]; exact h
+
+/-- an update of the tree-backed sketch that touches neither hashes, md5 cache, k-mer size,
+capacity, threshold nor `current_max`, mirrored on the array-backed twin -/
+theorem Good.of_fields {fix : Bool} {c : Cell} (g : Good fix c) {v' : MH} {b' : BT}
+    (h1 : b'.abs.erase = v'.erase)
+    (hv : v'.md5 = c.v.md5 ∧ v'.mins = c.v.mins ∧ v'.ksize = c.v.ksize)
+    (hb : b'.md5 = c.b.md5 ∧ b'.mins = c.b.mins ∧ b'.ksize = c.b.ksize)
+    (hbi : BInv b') (hx : b'.num = c.b.num ∧ b'.maxHash = c.b.maxHash)
+    (hcm : b'.currentMax = c.b.currentMax) : Good fix ⟨v', b', c.stale⟩ := by
+  refine ⟨h1, cacheInv_congr hv.1 hv.2.1 hv.2.2 g.cv, ?_, hbi, ?_, ?_, g.nofix⟩
+  · exact cacheInv_congr (s := c.b.abs) hb.1 hb.2.1 hb.2.2 g.cb
+  · have := g.excl
+    unfold Excl at this ⊢
+    simp only [BT.abs_num, BT.abs_maxHash] at this ⊢
+    rw [hx.1, hx.2]; exact this
+  · intro hst
+    have := g.cm hst
+    unfold CmOk at this ⊢
+    rw [hx.1, hb.2.1, hcm]; exact this
+
+theorem good_self {fix : Bool} {c : Cell} (g : Good fix c) : Good fix ⟨c.v, c.b, c.stale⟩ := g
+
+theorem good_enab {fix : Bool} {c : Cell} (g : Good fix c) :
+    Good fix ⟨orElse c.v.enableAbundance c.v, orElse c.b.enableAbundance c.b, c.stale⟩ := by
+  have hm : c.v.mins = c.b.mins := (erase_fields g.eq).2.2.2.2.2.1.symm
+  unfold MH.enableAbundance BT.enableAbundance
+  rw [hm]
+  by_cases he : (!c.b.mins.isEmpty) = true
+  · rw [if_pos he, if_pos he]; exact g
+  · rw [if_neg he, if_neg he]
+    simp only [orElse]
+    have hempty : c.b.mins = [] := by simpa using he
+    have hv := eq_setMd5_of_erase g.eq
+    refine g.of_fields ?_ ⟨rfl, hm.symm, rfl⟩ ⟨rfl, rfl, rfl⟩ ?_ ⟨rfl, rfl⟩ rfl
+    · rw [hv]; rfl
+    · refine ⟨⟨g.binv.inv.sorted, ?_, ?_, g.binv.inv.bounded, g.binv.inv.capped⟩, ?_⟩
+      · intro ab h
+        simp only [BT.abs, Option.map_some, Option.some.injEq] at h
+        subst h
+        simp [hempty]
+      · intro ab h a ha
+        simp only [BT.abs, Option.map_some, Option.some.injEq] at h
+        subst h
+        simp at ha
+      · intro m h
+        simp only [Option.some.injEq] at h
+        subst h
+        simp [hempty]
+
+theorem good_disab {fix : Bool} {c : Cell} (g : Good fix c) :
+    Good fix ⟨c.v.disableAbundance, c.b.disableAbundance, c.stale⟩ := by
+  have hv := eq_setMd5_of_erase g.eq
+  refine g.of_fields ?_ ⟨rfl, rfl, rfl⟩ ⟨rfl, rfl, rfl⟩ ?_ ⟨rfl, rfl⟩ rfl
+  · rw [hv]; rfl
+  · refine ⟨⟨g.binv.inv.sorted, ?_, ?_, g.binv.inv.bounded, g.binv.inv.capped⟩, ?_⟩
+    · intro ab h; simp [BT.abs, BT.disableAbundance] at h
+    · intro ab h; simp [BT.abs, BT.disableAbundance] at h
+    · intro m h; simp [BT.disableAbundance] at h
+
+theorem good_sethf {fix : Bool} {c : Cell} (g : Good fix c) (k : Nat) :
+    Good fix ⟨orElse (c.v.setHashFunction k) c.v, orElse (c.b.setHashFunction k) c.b, c.stale⟩ := by
+  have hf := erase_fields g.eq
+  have hm : c.v.mins = c.b.mins := hf.2.2.2.2.2.1.symm
+  have hh : c.v.hf = c.b.hf := hf.2.2.2.2.1.symm
+  unfold MH.setHashFunction BT.setHashFunction
+  rw [hm, hh]
+  by_cases h1 : c.b.hf = k
+  · rw [if_pos h1, if_pos h1]; exact g
+  rw [if_neg h1, if_neg h1]
+  by_cases he : (!c.b.mins.isEmpty) = true
+  · rw [if_pos he, if_pos he]; exact g
+  · rw [if_neg he, if_neg he]
+    simp only [orElse]
+    have hv := eq_setMd5_of_erase g.eq
+    refine g.of_fields ?_ ⟨rfl, hm.symm, rfl⟩ ⟨rfl, rfl, rfl⟩ ?_ ⟨rfl, rfl⟩ rfl
+    · rw [hv]; rfl
+    · exact ⟨⟨g.binv.inv.sorted, g.binv.inv.aligned, g.binv.inv.positive, g.binv.inv.bounded,
+        g.binv.inv.capped⟩, g.binv.keys⟩
+
+theorem good_downmh {fix : Bool} {o : Cell} (go : Good fix o) (mx : Nat) {v' : MH} {b' : BT}
+    (hv : o.v.downsampleMaxHash mx = .ok v') (hb : downMaxB fix o.b mx = .ok b') :
+    Good fix ⟨v', b', o.stale⟩ := by
+  have hM : o.v.maxHash = o.b.maxHash := (erase_fields go.eq).2.1.symm
+  unfold MH.downsampleMaxHash at hv
+  have hb' : (if o.b.maxHash = 0 then Except.ok o.b else downB fix o.b (scR mx)) = .ok b' := by
+    unfold downMaxB BT.downsampleMaxHashFix BT.downsampleMaxHash at hb
+    unfold downB
+    cases fix <;> simpa using hb
+  rw [hM] at hv
+  by_cases h0 : o.b.maxHash = 0
+  · rw [if_pos h0] at hv hb'
+    cases hv; cases hb'
+    exact go
+  · rw [if_neg h0] at hv hb'
+    exact good_down go (scR mx) hv hb'
+
 /-! ### one step, every history -/
 
 theorem goodTab_step {fix : Bool} {t : Tab} (ht : GoodTab fix t) (op : Op) (hs : Safe fix t op) :
@@ -700,6 +829,20 @@ theorem goodTab_step {fix : Bool} {t : Tab} (ht : GoodTab fix t) (op : Op) (hs :
   | convbt h => exact ht.upd (fun c hc g => good_convbt g (hs c hc))
   | json h => exact ht.upd (fun c _ g => good_json g)
   | md5 h => exact ht.upd (fun c _ g => good_md5 g)
+  | enab h => exact ht.upd (fun c _ g => good_enab g)
+  | disab h => exact ht.upd (fun c _ g => good_disab g)
+  | sethf h k => exact ht.upd (fun c _ g => good_sethf g k)
+  | downmh r g mx =>
+    rw [step_downmh]
+    split
+    · rename_i o hg
+      have go := ht g o hg
+      have ht1 : GoodTab fix (t.set g ⟨o.v.clone.1, o.b.clone.1, o.stale⟩) := ht.set (good_clone1 go)
+      split
+      · rename_i v' b' hv hb
+        exact ht1.set (good_downmh (good_clone2 go) mx hv hb)
+      · exact ht1
+    · exact ht
 
 theorem goodTab_foldl {fix : Bool} (ops : List Op) {t : Tab} (ht : GoodTab fix t)
     (hs : SafeHist fix t ops) : GoodTab fix (ops.foldl (step fix) t) := by
